@@ -104,6 +104,10 @@ def build_variant(work: Path, tag, files, fmt, variant, r):
             cwd.mkdir(parents=True)
             args = [str(root / n) for n in names]
             sb.build = root / "out" / "b" / "build"
+        elif kind == "builddir-in-src":
+            # the build directory inside one of the source directories: paths from the build directory to the sources
+            # then differ in depth ("../x.svg" vs "../../src/y.svg")
+            sb.build = root / "art2" / "build"
         elif kind == "cwd-rel":
             # run from inside one source directory with relative spellings ("x.svg", "../src/y.svg")
             cwd = root / "art2"
@@ -218,7 +222,11 @@ def run(chk):
             variants += [{"kind": "argperm", "n": 2}, {"kind": "argperm", "n": 3}, {"kind": "hashseed", "seed": 7},
                          {"kind": "hashseed", "seed": 99}, {"kind": "topo", "n": 2}, {"kind": "topo", "n": 3},
                          {"kind": "base", "n": 2}]
+        variants.append({"kind": "builddir-in-src"})
         jobs = [(f, v) for f in fmts for v in variants]
+        if "untouchedsvg" not in fmts:
+            # sources used as they are (paths, not build-local copies, reach the glyph map): the directory variants
+            jobs += [("untouchedsvg", v) for v in variants if v["kind"] in ("base", "cwd", "cwd-rel", "builddir-in-src", "argperm")]
 
         def one(k_job):
             k, (f, v) = k_job
